@@ -92,7 +92,9 @@ def _run_chunk(args):
         agg["stats"].update(res.get("stats", {}))
         agg["probes"].update(res.get("probes", {}))
         agg["faults"].update(res.get("faults", {}))
-        agg["states"].update(res.get("states", ()))
+        # 64-bit digests instead of the strings: thorough tiers merge millions of them (the count of distinct items is
+        # what is reported; hash() is deterministic because ./check pins PYTHONHASHSEED)
+        agg["states"].update(hash(x) for x in res.get("states", ()))
         agg["steps"] += res.get("steps", 0)
         agg["digests"].append((i, res.get("digest", "")))
         if res.get("nontrivial"):
